@@ -83,3 +83,47 @@ Example C09_example :
   | Err _ => False
   end.
 Proof. vm_compute. reflexivity. Qed.
+
+(* ------------------------------------------------------------------------------------------------------
+   Added in build session 4 (statements re-stated from the proof files by harness tooling; each is closed by
+   exact). *)
+From SplipyModel Require Import Transfer.ParamObj Transfer.ParamOps Transfer.ParamOps2.
+Open Scope R_scope.
+Theorem C09_executed_is_proved_translate :
+  forall (o : obj Q) (x : list Q), resmap objQ2R (obj_translate o x) = obj_translate (objQ2R o) (map Q2R x).
+Proof. exact @obj_translate_transfer. Qed.
+Print Assumptions C09_executed_is_proved_translate.
+
+Theorem C09_executed_is_proved_scale :
+  forall (o : obj Q) (s : list Q), resmap objQ2R (obj_scale o s) = obj_scale (objQ2R o) (map Q2R s).
+Proof. exact @obj_scale_transfer. Qed.
+Print Assumptions C09_executed_is_proved_scale.
+
+Theorem C09_executed_is_proved_rotate :
+  forall (o : obj Q) (ch sh : Q) (normal : list Q) (inv : Q),
+         resmap objQ2R (obj_rotate o ch sh normal inv) =
+         obj_rotate (objQ2R o) (Q2R ch) (Q2R sh) (map Q2R normal) (Q2R inv).
+Proof. exact @obj_rotate_transfer. Qed.
+Print Assumptions C09_executed_is_proved_rotate.
+
+Theorem C09_executed_is_proved_mirror :
+  forall (o : obj Q) (normal : list Q) (inv : Q),
+         resmap objQ2R (obj_mirror o normal inv) = obj_mirror (objQ2R o) (map Q2R normal) (Q2R inv).
+Proof. exact @obj_mirror_transfer. Qed.
+Print Assumptions C09_executed_is_proved_mirror.
+
+Theorem C09_executed_is_proved_project :
+  forall (o : obj Q) (keep : list bool), objQ2R (obj_project o keep) = obj_project (objQ2R o) keep.
+Proof. exact @obj_project_transfer. Qed.
+Print Assumptions C09_executed_is_proved_project.
+
+Theorem C09_executed_is_proved_set_dimension :
+  forall (o : obj Q) (newdim : nat), objQ2R (obj_set_dimension o newdim) = obj_set_dimension (objQ2R o) newdim.
+Proof. exact @obj_set_dimension_transfer. Qed.
+Print Assumptions C09_executed_is_proved_set_dimension.
+
+Theorem C09_executed_is_proved_force_rational :
+  forall o : obj Q, objQ2R (obj_force_rational o) = obj_force_rational (objQ2R o).
+Proof. exact @obj_force_rational_transfer. Qed.
+Print Assumptions C09_executed_is_proved_force_rational.
+
